@@ -34,8 +34,8 @@ CHECKS = {
    note="NOT decided: the remaining continuous tree conditions of DOP853, Radau, BDF (numeric).",
    ref="5 (C07), 3.4"),
  "C08": dict(cat="model_checking", tech=TLA + ": bounded-exhaustive handler model with event functions, replayed into the real DefaultSolOut (real Brent code), traces validated by TLC; plus recorded solve_ivp runs",
-   text="Event reporting is specified in spec/handler/Handler.tla (crossing test, shortcut at |g|<=xtol, Brent refinement as an oracle, chronological stable sort) and the contract C08_Inv (event inside its bracketing step, y_e = interpolant(t_e), t_e within root-finder accuracy of a root, configured direction in integration order, per-function monotone lists, matching shapes) is evaluated by TLC on every replayed scenario (1-2 event functions, 1-2 roots each anywhere relative to the grid, all direction filters, both time directions) and on recorded runs of the six real steppers.",
-   note="Replay uses polynomial event functions of t with tick-valued roots; recorded runs use state-dependent event functions. RootT = 4 ticks (3.6e-12).",
+   text="Event reporting is specified in spec/handler/Handler.tla (crossing test, a step end answers only where g vanishes there exactly - repair 4876364 -, Brent refinement as an oracle, chronological stable sort) and the contract C08_Inv (event inside its bracketing step, y_e = interpolant(t_e), t_e within root-finder accuracy of a root, configured direction in integration order, per-function monotone lists, matching shapes) is evaluated by TLC on every replayed scenario (1-2 event functions, 1-2 roots each anywhere relative to the grid, all direction filters, both time directions) and on recorded runs of the six real steppers.",
+   note="Replay uses polynomial event functions of t with tick-valued roots; recorded runs use state-dependent event functions, incl. event functions of magnitude 1e-6 .. 1e-30 (the scale of g is not a time). RootT = 4 ticks (3.6e-12).",
    ref="5 (C08)"),
  "C09": dict(cat="model_checking", tech=TLA + ": same handler model; per-step sign-change contract evaluated by TLC on replayed scenarios and recorded runs",
    text="C09_Inv: strictly opposite signs in the configured direction at consecutive accepted step ends => exactly one event of that function in that step; equal strict signs => none; zeros at step ends unconstrained (as the property states). Checked by TLC for every scenario of the bounded model executed on the real handler (roots on / next to / between step ends, several functions in one step, terminal stops in the same step) and on recorded runs of the real steppers with g evaluated at every reported step end.",
